@@ -269,6 +269,49 @@ Definition token_enabled (cfg : config) (s : session) : bool :=
 Definition name_value (c : cookie) : str * str := (c_name c, c_value c).
 
 (* ------------------------------------------------------------------------------------------ *)
+(* which session Authenticate asserts when a refresh or a revalidation is due
+   (oauthproxy.go:660-714 with providers/sso.go RefreshSession 242-286, ValidateSessionState 336-401,
+   ValidateGroup 168-193; successful outcomes only — failures never reach the upstream and are
+   C01/C04's subject; restated here after coq/theories/ProxyCore.v refresh_session /
+   validate_session / authenticate.ao_session, keeping only the four fields C03 projects).
+   The provider mutates the session in place, Authenticate re-saves THAT session in the cookie and
+   then builds the identity headers from THAT session. *)
+Inductive due :=
+| NotDue                                                        (* no deadline passed: nothing re-saved *)
+| RefreshDue (new_token : str) (profile_groups : list str)      (* RefreshDeadline passed; /refresh 201, /profile 200 *)
+| ValidateDue (profile_groups : list str)                       (* ValidDeadline passed; /validate 200, /profile 200 *)
+| GraceFallback.                                                (* provider unavailable within the grace period:
+                                                                   only a deadline moves, session re-saved *)
+
+(* ValidateGroup: no lookup when no groups are configured or the lone "*" *)
+Definition no_group_check (allowed : list str) : bool :=
+  match allowed with [] => true | [x] => str_eqb x [42] | _ => false end.
+Definition matched_groups (allowed ug : list str) : list str :=
+  if no_group_check allowed then [] else flat_map (fun u => filter (str_eqb u) allowed) ug.
+(* the provider refuses (membership revoked) when a lookup was made and nothing matched *)
+Definition due_succeeds (allowed : list str) (d : due) : bool :=
+  match d with
+  | RefreshDue _ ug | ValidateDue ug => no_group_check allowed || negb (is_nil (matched_groups allowed ug))
+  | _ => true
+  end.
+
+Definition set_groups (s : session) (g : list str) : session :=
+  {| s_user := s_user s; s_email := s_email s; s_groups := g; s_token := s_token s |}.
+Definition set_token (s : session) (t : str) : session :=
+  {| s_user := s_user s; s_email := s_email s; s_groups := s_groups s; s_token := t |}.
+
+Definition asserted_session (allowed : list str) (s : session) (d : due) : session :=
+  match d with
+  | NotDue | GraceFallback => s
+  | RefreshDue tok ug => set_token (set_groups s (matched_groups allowed ug)) tok
+  | ValidateDue ug => set_groups s (matched_groups allowed ug)
+  end.
+
+(* SaveSession: what the Set-Cookie of this response carries *)
+Definition resaved_session (allowed : list str) (s : session) (d : due) : option session :=
+  match d with NotDue => None | _ => Some (asserted_session allowed s d) end.
+
+(* ------------------------------------------------------------------------------------------ *)
 (* vocabulary of the property statements (used by the theorems and by the monitor) *)
 
 (* the client put a header with this canonical name on the wire *)
